@@ -17,6 +17,8 @@ limitations under the License.
 package action
 
 import (
+	"fmt"
+
 	chartutil "helm.sh/helm/v4/pkg/chart/v2/util"
 )
 
@@ -50,6 +52,9 @@ func (g *GetValues) Run(name string) (map[string]interface{}, error) {
 
 	// If the user wants all values, compute the values and return.
 	if g.AllValues {
+		if rel.Chart == nil || rel.Chart.Metadata == nil {
+			return nil, fmt.Errorf("release %q revision %d has no chart: cannot compute all values", rel.Name, rel.Version)
+		}
 		cfg, err := chartutil.CoalesceValues(rel.Chart, rel.Config)
 		if err != nil {
 			return nil, err
